@@ -3,8 +3,10 @@
    Written from the Rust source, branch for branch.  Definitions only.
 
    u32 arithmetic: `new_id += 1` and `new_id - 1` are checked (the harness is built with overflow
-   checks on): leaving 0..2^32-1 is the outcome [Panic].  The page counter `i: i32` would need
-   2^31 pages and is not modelled.  The recursion of update_bookmark_pages over `children` has no
+   checks on): leaving 0..2^32-1 is the outcome [Panic].  The page counter `i: i32` (`i += 1` once per
+   distinct page, checked) is modelled by [renumber_objects_with_i32] at the end: more than i32::MAX
+   distinct pages is the outcome [Panic], before anything is changed; page_iter yields at most one id
+   per object (its iter_limit), so this needs 2^31 objects (Proofs/RenumberProofsMerge.v).  The recursion of update_bookmark_pages over `children` has no
    cycle guard in Rust: running out of [depth] is the outcome [StackOverflow]. *)
 From LV Require Import Base.Bytes Base.Sx Model.Obj Model.DocQ Model.PageTree Model.Traverse.
 
@@ -188,6 +190,31 @@ Fixpoint dense_moves (r : rmap) (m collected : objmap) : objmap * objmap :=
     end
   end.
 
+(* the action of the dense pass (since the repair of C10/dangling-in-range):
+     if let Some(new) = replace.get(id) { *id = *new } else if ids.binary_search(id).is_err() { *object = Object::Null }
+   [None] = the reference is overwritten with Null.  `ids` are the keys before the pass, sorted. *)
+Definition dense_action (r : rmap) (ids : list oid) (id : oid) : option oid :=
+  match rlookup r id with
+  | Some n => Some n
+  | None => if mem_oid id ids then Some id else None
+  end.
+
+(* let no_page = match ids.first() { Some(&(_, 0)) if starting_id == 0 => (0, 1), _ => (0, 0) }; *)
+Definition no_page (start : N) (ids : list oid) : oid :=
+  match ids with
+  | (_, g) :: _ => if ((g =? 0) && (start =? 0))%N then (0, 1)%N else (0, 0)%N
+  | [] => (0, 0)%N
+  end.
+
+(* for bookmark in bookmark_table.values_mut() {
+     if let Some(new) = replace.get(&bookmark.page) { bookmark.page = *new }
+     else if ids.binary_search(&bookmark.page).is_err() { bookmark.page = no_page } } *)
+Definition dense_bookmark (r : rmap) (ids : list oid) (np : oid) (p : oid) : oid :=
+  match rlookup r p with
+  | Some n => n
+  | None => if mem_oid p ids then p else np
+  end.
+
 Definition dense_pass (start : N) (d : rdoc) : outcome :=
   let m := d_objects (base d) in
   let ids := map fst m in                                  (* keys().collect(); sort_unstable(): already sorted *)
@@ -195,10 +222,10 @@ Definition dense_pass (start : N) (d : rdoc) : outcome :=
   | None => Panic
   | Some (r, last) =>
     let '(m1, collected) := dense_moves r m [] in
+    let t' := renumber_bookmarks_with (dense_bookmark r ids (no_page start ids)) (bm_table d) in
     let m2 := insert_all collected m1 in
-    let f := rename_of r in
-    let t' := renumber_bookmarks_with f (bm_table d) in
-    match traverse_objects f (trav_fuel (d_trailer (base d)) m2) (d_trailer (base d)) m2 with
+    let f := dense_action r ids in
+    match traverse_objects_o f (trav_fuel (d_trailer (base d)) m2) (d_trailer (base d)) m2 with
     | Some (tr', m3, _) =>
       Done {| base := with_objects (base d) tr' m3 last;
               max_bookmark_id := max_bookmark_id d; bookmarks := bookmarks d; bm_table := t' |}
@@ -213,3 +240,13 @@ Definition renumber_objects_with (start : N) (d : rdoc) : outcome :=
   end.
 
 Definition renumber_objects (d : rdoc) : outcome := renumber_objects_with 1 d.
+
+(* ---- the page counter: let mut i = 0 (i32); page_iter().filter(seen).map(|id| { i += 1; (i, id) }) ----
+   `i += 1` overflows (panic, overflow checks on) when the 2^31-th distinct page is numbered; the second
+   counter (`needs_ordering`) counts the same pages and stops early, so it adds no case.  The panic happens
+   while `page_order` is collected, before the document is touched. *)
+Definition I32_MAX : N := 2147483647.
+Definition page_counter_ok (d : rdoc) : bool :=
+  (N.of_nat (length (dedup_oids [] (page_iter (base d)))) <=? I32_MAX)%N.
+Definition renumber_objects_with_i32 (start : N) (d : rdoc) : outcome :=
+  if page_counter_ok d then renumber_objects_with start d else Panic.
